@@ -14,6 +14,7 @@
 #include "colvarbias.h"
 #include "colvarscript.h"
 #include "colvarbias_meta.h"
+#include "colvarbias_opes.h"
 #include "colvarbias_abf.h"
 #include "colvarcomp.h"
 #include "colvaratoms.h"
@@ -191,6 +192,9 @@ struct colvars_verif_access {
   static std::vector<colvardeps::feature_state> const &dep_states(colvardeps *o) { return o->feature_states; }
   static std::vector<colvardeps *> const &dep_children(colvardeps *o) { return o->children; }
   static std::vector<colvardeps *> const &dep_parents(colvardeps *o) { return o->parents; }
+  // OPES (kernels held, number of kernels counted so far)
+  static std::vector<colvarbias_opes::kernel> const &opes_kernels(colvarbias_opes *b) { return b->m_kernels; }
+  static unsigned long long opes_counter(colvarbias_opes *b) { return b->m_counter; }
   // metadynamics (multiple-walker mirrors, grids, pending hills)
   static std::vector<colvarbias_meta *> &meta_replicas(colvarbias_meta *b) { return b->replicas; }
   static colvar_grid_scalar *meta_energy_grid(colvarbias_meta *b) { return b->hills_energy.get(); }
